@@ -1,2 +1,3 @@
 pub mod c19;
 pub mod hist;
+pub mod c17;
